@@ -218,6 +218,54 @@ def do_run(ids, tier, all_checks, props_extra):
   return rows
 
 
+BASE_KEYS = {}
+
+
+def export_tree(commit, dest):
+  os.makedirs(dest)
+  ar = subprocess.run(["git", "-C", "/repo", "archive", commit, "audiolazy"],
+                      capture_output=True, check=True)
+  subprocess.run(["tar", "-x", "-C", dest], input=ar.stdout, check=True)
+
+
+def key_names(keys):
+  return sorted(set(k.split()[0] for k in keys))
+
+
+def rerun_on_older_base(d, prop, tier):
+  commits = subprocess.run(["git", "-C", "/repo", "log", "--format=%h",
+                            "HEAD"], capture_output=True,
+                           text=True).stdout.split()
+  for commit in commits[1:]:
+    tmp = tempfile.mkdtemp(prefix="verif-refbase-")
+    try:
+      export_tree(commit, os.path.join(tmp, "t"))
+      rc, _ = sh(["patch", "-p1", "-s", "--dry-run", "-i",
+                  os.path.join(d, "patch.diff")], cwd=os.path.join(tmp, "t"))
+      if rc:
+        continue
+      if (commit, prop) not in BASE_KEYS:
+        BASE_KEYS[(commit, prop)] = run_check(prop, os.path.join(tmp, "t"),
+                                              tier, SEED)
+      brc, bkeys = BASE_KEYS[(commit, prop)]
+      sh(["patch", "-p1", "-s", "--no-backup-if-mismatch", "-i",
+          os.path.join(d, "patch.diff")], cwd=os.path.join(tmp, "t"))
+      rc, keys = run_check(prop, os.path.join(tmp, "t"), tier, SEED)
+      # a key is "<operation>/<mechanism>": a refactoring may move where the
+      # base tree's own defect surfaces (another operation), never what it is
+      mech = set(k.split("/", 1)[-1] for k in key_names(bkeys))
+      extra = [k for k in key_names(keys) if k not in key_names(bkeys) and
+               k.split("/", 1)[-1] not in mech]
+      if rc in (0, 1) and brc in (0, 1) and not extra:
+        return "silent  on-base=%s (that tree alone reports: %s)" % (
+          commit, ", ".join(key_names(bkeys)) or "nothing")
+      return "ALARM on-base=%s rc=%d/%d extra keys: %s" % (
+        commit, rc, brc, "; ".join(extra)[:200])
+    finally:
+      shutil.rmtree(tmp, ignore_errors=True)
+  return "PATCH-APPLIES-TO-NO-COMMIT"
+
+
 def do_run_refactors(ids, tier):
   """Re-apply the stored behaviour-preserving refactorings to scratch copies
   of /repo and run their property's check: every one must stay silent."""
@@ -234,7 +282,13 @@ def do_run_refactors(ids, tier):
       rc, out = sh(["patch", "-p1", "-s", "--no-backup-if-mismatch", "-i",
                     os.path.join(d, "patch.diff")], cwd=tmp)
       if rc:
-        print("%-10s PATCH-FAILS %s" % (rid, out[-150:].replace("\n", " ")))
+        # later fix: commits rewrote the lines the patch touches: re-run it on
+        # the newest commit it still applies to, differentially - it is silent
+        # when it adds no key to what that (older, still defective) tree
+        # reports by itself
+        res = rerun_on_older_base(d, meta["property"], tier)
+        print("%-10s %-4s %s" % (rid, meta["property"], res), flush=True)
+        bad += not res.startswith("silent")
         continue
       rc, keys = run_check(meta["property"], tmp, tier, SEED)
       print("%-10s %-4s %-7s %s" % (rid, meta["property"],
